@@ -40,6 +40,18 @@ def behaviour(T, top, inputs, rename=None):
             out.append(("ok", repr(v), r[2], d, bool(r[1]), r[1] == T(inp), h, repr(sorted(sizes.items()))))
         else:
             out.append(("err", type(r[1]).__name__))
+    # the structure as the element of arrays: a NUL-terminated one (ends at the all-default element) and a fixed one
+    for inp in inputs:
+        for count in (None, 2):
+            try:
+                with engine.guard():
+                    arr = T[count](inp)
+                out.append(("array", count, [repr(norm_or_err(e, top)[0]) for e in arr], T[count](inp).dumps()
+                            if count is not None else len(arr)))
+            except engine.ParseAbandoned:
+                out.append(("array", count, "not-judged"))
+            except Exception as ex:  # noqa: BLE001
+                out.append(("array-err", count, type(ex).__name__))
     try:
         dflt = T()
         out.append(("default", repr(norm_or_err(dflt, top)[0]), dflt.dumps() if T.size is not None or True else None))
@@ -63,6 +75,11 @@ class Deliberate(Exception):
 def use_intermediate(inc, rng):
     """Instances of the not yet complete structure exist before it is extended further."""
     try:
+        if rng.random() < 0.5:
+            # ... also as the elements of arrays (NUL-terminated ones compare against the all-default element)
+            with engine.guard():
+                inc[None](bytes(64))
+                inc[2](bytes(64)) if inc.size is not None else None
         o = inc()
         if rng.random() < 0.5:
             o = inc(bytes(64))
@@ -433,6 +450,79 @@ def special_sequences(ctx, rng):
                                   dict(det, got=repr(got[k])[:300], want=repr(want[k])[:300]))
                 else:
                     ctx.event("offset_after_dynamic_checked")
+            # (d') explicit offsets anywhere: forward gaps, into what was the tail padding of the aligned structure so
+            # far, back into (overlaying) earlier fields -- in whichever commit they arrive the structure is the one
+            # declared in one piece
+            pool = ["uint8", "uint16", "uint32", "uint64", "int24", "char"]
+            for it in range(12 if not ctx.thorough else 150):
+                r2 = ctx.rng("explicit-offsets", compiled, align, it)
+                cs = lib.cstruct()
+                nf = r2.randint(2, 6)
+                specs, pos = [], 0
+                for j in range(nf):
+                    t_ = getattr(cs, r2.choice(pool))
+                    if r2.random() < 0.3:
+                        t_ = t_[r2.randint(1, 3)]
+                    o_ = None
+                    if j and r2.random() < 0.5:
+                        o_ = r2.choice([pos + r2.randint(0, 9), pos, max(0, pos - r2.randint(1, 6)), r2.randint(0, 24)])
+                    specs.append((f"f{j}", t_, o_))
+                    pos = (pos if o_ is None else o_) + t_.size
+                split = split_pattern(r2, nf)
+                ctx.evaluation(("explicit-offsets", compiled, align, repr([(n_, t_.__name__, o_) for n_, t_, o_ in specs]),
+                                repr(split)))
+                det = {"workload": "special-sequences", "compiled": compiled, "align": align, "split": repr(split),
+                       "part": "explicit-offsets", "fields": repr([(n_, t_.__name__, o_) for n_, t_, o_ in specs])}
+                data = bytes(range(1, 97))
+
+                def facts2(T_):
+                    import inspect
+
+                    out = [T_.size, T_.alignment, [(f._name, f.offset) for f in T_.__fields__], source_of(T_),
+                           str(inspect.signature(T_.__init__)), bool(T_.__compiled__)]
+                    for start in (0, 8):
+                        st_ = io.BytesIO(data)
+                        st_.seek(start)
+                        o = T_._read(st_)
+                        out.append((st_.tell(), lib.stable_repr(o), o.dumps(), sorted(o._sizes.items())))
+                    out.append(T_().dumps())
+                    out.append(T_[2](data).dumps())
+                    return out
+
+                try:
+                    one = cs._make_struct("T", [Field(n_, t_, offset=o_) for n_, t_, o_ in specs], align=align, base=Structure)
+                    if compiled:
+                        one = compiler.compile(one)
+                    want = facts2(one)
+                except Exception:  # noqa: BLE001
+                    ctx.event("explicit_offsets_one_shot_refused")
+                    continue
+                try:
+                    inc = cs._make_struct("T", [], align=align, base=Structure)
+                    if compiled:
+                        inc = compiler.compile(inc)
+                    for kind, idxs in split:
+                        if r2.random() < 0.3:
+                            use_intermediate(inc, r2)
+                        if kind == "single":
+                            n_, t_, o_ = specs[idxs[0]]
+                            inc.add_field(n_, t_, offset=o_)
+                        else:
+                            with inc.start_update():
+                                for i2 in idxs:
+                                    n_, t_, o_ = specs[i2]
+                                    inc.add_field(n_, t_, offset=o_)
+                    got = facts2(inc)
+                except Exception as e:  # noqa: BLE001
+                    ctx.violation("build", f"incremental-build-raises:{type(e).__name__}", dict(det, error=lib.exc_sig(e)))
+                    continue
+                ctx.cell("explicit-offsets-in-later-commits")
+                if got != want:
+                    k = next(j for j, (a, b) in enumerate(zip(got, want)) if a != b)
+                    ctx.violation("behaviour", "incremental-structure-behaves-differently",
+                                  dict(det, got=repr(got[k])[:300], want=repr(want[k])[:300]))
+                else:
+                    ctx.event("explicit_offsets_checked")
             # straddling bit-field arriving in a later commit, also after the structure became dynamic
             for lead in ([], [("n", "uint8", None), ("d", "dyn", None)]):
                 ctx.evaluation(("late-straddle", compiled, align, len(lead)))
